@@ -60,7 +60,8 @@ def lin(coeffs):
     return o
 
 
-@rule("C18.asmatrix", props=["C18"], min_instances=2, mutants=[
+@rule("C18.asmatrix", props=["C18"], min_instances=3, mutants=[
+    ("the empty multivector gives the number 0", ("multivector", "        if not self.keys():\n            return 0 * self.algebra.matrix_basis[0]  # The zero matrix, not the number 0.\n", "")),
     ("asmatrix indexes by binary key", ("multivector", "        return sum(v * self.algebra.matrix_basis[bin2index[k]] for k, v in self.items())", "        return sum(v * self.algebra.matrix_basis[k] for k, v in self.items())")),
     ("asmatrix indexes by storage position", ("multivector", "        return sum(v * self.algebra.matrix_basis[bin2index[k]] for k, v in self.items())", "        return sum(v * self.algebra.matrix_basis[i] for i, (k, v) in enumerate(self.items()))")),
 ])
@@ -69,7 +70,7 @@ def asmatrix(ctx):
     repo = ctx.repo
     q = "multivector.MultiVector.asmatrix"
     fn = ctx.func(q)
-    for label, keys in (("sparse shuffled", (4, 3, 0, 7)), ("full binary order", tuple(range(8)))):
+    for label, keys in (("sparse shuffled", (4, 3, 0, 7)), ("full binary order", tuple(range(8))), ("no stored blade", ())):
         c = f"{q}#{label}"
         alg = rep_algebra(3)
         canon = list(alg.attrs["canon2bin"].values())
@@ -80,6 +81,10 @@ def asmatrix(ctx):
             out = it.run(q, [mv])
         except NoValue as exc:
             raise Unknown(c, str(exc), fn)
+        if not keys and out[0] == "return" and isinstance(out[1], (int, float)) and not isinstance(out[1], bool):
+            ctx.violation(c, f"asmatrix of a multivector that stores no blade (e0*e0, x - x) is the NUMBER {out[1]!r}, not the zero matrix: "
+                             f"frommatrix cannot read it back and it is not the product of the factors' matrices as an object", fn)
+            continue
         if out[0] == "raise" or not (isinstance(out[1], Obj) and out[1].kind == "lin"):
             raise Unknown(c, f"asmatrix gives {out!r}", fn)
         got = {k: v for k, v in out[1].attrs["coeffs"].items() if not v.is_zero()}
@@ -264,13 +269,20 @@ def numpy_standin():
             return Unk("ordering arith")
         o.methods["binop"] = binop
         return o
-    table = {"array": PyFunc(array, "np.array", True), "kron": PyFunc(kron, "np.kron", True), "vstack": PyFunc(vstack, "np.vstack", True)}
+    def eye(n, *a, **k):
+        if n == 1:
+            return kron_obj([])                 # the 1 x 1 identity: the empty Kronecker product
+        if n == 2:
+            return kron_obj([((1, 0), (0, 1))])
+        return Unk("np.eye")
+    table = {"array": PyFunc(array, "np.array", True), "kron": PyFunc(kron, "np.kron", True), "vstack": PyFunc(vstack, "np.vstack", True),
+             "eye": PyFunc(eye, "np.eye", True), "identity": PyFunc(eye, "np.identity", True), "int": ClassRef("int") if False else Obj("dtype", {"name": "int64", "fmt": "int"})}
     for n in ("int8", "int16", "int32", "int64", "uint8", "float16", "float32", "float64", "bool_", "complex128", "intp"):
         table[n] = Obj("dtype", {"name": n, "fmt": n})
     return Obj("module:numpy", table)
 
 
-SIGNATURES = {"[+,+,+]": [1, 1, 1], "[0,+,-]": [0, 1, -1], "[-,0,+,+]": [-1, 0, 1, 1], "[+,-]": [1, -1], "[0,0,+]": [0, 0, 1]}
+SIGNATURES = {"[] (no generator)": [], "[+,+,+]": [1, 1, 1], "[0,+,-]": [0, 1, -1], "[-,0,+,+]": [-1, 0, 1, 1], "[+,-]": [1, -1], "[0,0,+]": [0, 0, 1]}
 
 
 @rule("C18.kronecker", props=["C18"], min_instances=5, mutants=[
